@@ -209,7 +209,10 @@ class ShapelyBoundary(BoundaryDomain):
         super().__init__(domain)
         outline = self.domain.outline()
         self.normal_list = self._compute_normals(outline)
-        self.tol = 1.0e-06
+        # float32 points on the boundary are only exact up to a relative error: the
+        # tolerance grows with the size of the coordinates of the polygon
+        max_coordinate = max(abs(bound) for bound in self.domain.polygon.bounds)
+        self.tol = 1.0e-06 * max(1.0, max_coordinate)
 
     def __call__(self, **data):
         return self
